@@ -591,7 +591,15 @@ fn explore(sc: &Scen, bound: usize, max_runs: u64, deadline: Instant) -> (Scenar
         let a = run_schedule(sc, &choices);
         let b = run_schedule(sc, &choices);
         let same = |o: &RunOut| o.fails.iter().any(|x| x.rule == f.rule) || (f.rule == "deadlock" && o.deadlock.is_some()) || (f.rule == "panic" && !o.panics.is_empty());
-        let fp = if same(&a) && same(&b) { format!("{}@{}", class, choices.iter().map(|c| c.to_string()).collect::<Vec<_>>().join("")) } else { format!("{}#UNSTABLE", class) };
+        // the witness is the minimal failing schedule only when the whole space was explored; after a cap it is
+        // just the smallest one seen so far, which depends on how far the run got: name the class only
+        let fp = if !(same(&a) && same(&b)) {
+            format!("{}#UNSTABLE", class)
+        } else if !caps.is_empty() {
+            format!("{}@capped", class)
+        } else {
+            format!("{}@{}", class, choices.iter().map(|c| c.to_string()).collect::<Vec<_>>().join(""))
+        };
         viol.push(Violation {
             property: f.prop.to_string(),
             fingerprint: fp,
@@ -728,7 +736,7 @@ fn main() {
             let sc: Scen = serde_json::from_str(&std::fs::read_to_string(&args[2]).unwrap()).unwrap();
             let quick = args.get(4).map(|s| s == "quick").unwrap_or(true);
             let bound = if quick { 2 } else { 3 };
-            let (s, v) = explore(&sc, bound, if quick { 40_000 } else { 2_000_000 }, Instant::now() + Duration::from_secs(if quick { 40 } else { 900 }));
+            let (s, v) = explore(&sc, bound, if quick { 40_000 } else { 2_000_000 }, Instant::now() + Duration::from_secs(if quick { 150 } else { 1800 }));
             std::fs::write(&args[3], serde_json::to_string(&serde_json::json!({"scenario": s, "violations": v})).unwrap()).unwrap();
             std::process::exit(0);
         }
